@@ -2,6 +2,11 @@
 from facts import Sym, path_is, strip_generics, strip_sym, sym_arg, sym_calls, sym_is_call, sym_str, sym_through, sym_walk
 from props.common import arg_syms, bool_switches, callee_method_name, calls_to, crate_stats, enum_arms, gates, in_cycle, need, nonforeign_calls, one_method
 
+KEEP = [  # private helpers the rules name (kept as functions); every other non-exported, non-trait function is spliced into its callers
+    "AtomicBucketInstant::new", "Block::data", "Block::len", "Block::new",
+    "CompositeKeyName::new", "Generational::new", "Inner::new", "Matcher::sanitized",
+    "MetricKindMask::value",
+]
 TITLE = "C15 histogram buckets and summary windows mean what Prometheus says."
 CONFIGS = ["test-profile", "util-storage"]
 H = "metrics_util::storage::histogram::Histogram"
